@@ -80,6 +80,15 @@ class C07(vlib.Check):
                 if rng.random() < 0.35:
                     b, method = rng.choice(tg), rng.choice([0, 1])
                 steps.append({"bits": b, "method": method, "linked": rng.random() < 0.85, "cm": rng.choice(["sum", None, "max", "min"])})
+            if rng.random() < 0.4 and len(tg) >= 2:
+                # A, B, A(, B): return to a folding that is already cached after another folding was computed in between
+                (ba, bb) = rng.sample(tg, 2)
+                ma, mb = rng.choice([0, 1]), rng.choice([0, 1])
+                pat = [(ba, ma), (bb, mb), (ba, ma)] + ([(bb, mb)] if rng.random() < 0.5 else [])
+                if rng.random() < 0.3:
+                    pat = [(ba, 0), (ba, 1), (ba, 0)]        # same length, the other method in between
+                steps = [{"bits": b_, "method": m_, "linked": True, "cm": rng.choice(["sum", None])} for b_, m_ in pat]
+                self.count("fold-sequence:A-B-A")
             self.count("fold-sequence-on-one-object")
             yield {"t": "foldseq", "fp": fp, "steps": steps}
         # the fingerprinter route and the database route
